@@ -950,13 +950,27 @@ fn trigger_update<M: AsRef<[Machine]>>(
     #[cfg(feature = "verif")]
     verif::begin_event();
 
-    // parse actions and update
-    for action in state
+    // with the hooks on, everything the framework returned for this event is
+    // logged before the simulator acts on any of it
+    #[cfg(feature = "verif")]
+    let returned: Vec<_> = state
         .framework
         .trigger_events(&[next.event.clone()], *current_time)
-    {
-        #[cfg(feature = "verif")]
+        .cloned()
+        .collect();
+    #[cfg(feature = "verif")]
+    for action in returned.iter() {
         verif::log_action(is_client, *current_time, action);
+    }
+    #[cfg(feature = "verif")]
+    let actions = returned.iter();
+    #[cfg(not(feature = "verif"))]
+    let actions = state
+        .framework
+        .trigger_events(&[next.event.clone()], *current_time);
+
+    // parse actions and update
+    for action in actions {
         match action {
             TriggerAction::Cancel { machine, timer } => {
                 debug!(
